@@ -40,6 +40,14 @@ def cases(draw, procs=False):
         for L in spec['layers']:
             if draw(st.booleans()):
                 L['hooks'] = sorted(set(L['hooks']) | {'setUp', 'tearDown'}, key=gen.HOOKS.index)
+    # some layers get a dotted name that sorts *after* the unit-test layer (all layers share one random stream, drawn in
+    # sorted name order), and some modules disturb the process-wide random generator while they are imported
+    for L in spec['layers']:
+        if draw(st.integers(0, 2)) == 0:
+            L['modp'] = 'zz'
+    for m in spec['modules']:
+        if draw(st.integers(0, 3)) == 0:
+            m.setdefault('acts', []).append(['perturb_random'])
     names = [L['name'] for L in spec['layers']]
     opts = {'seed': draw(SEEDS), 'layer': draw(common.layer_pattern_strategy(names + ['UnitTests'])),
             'verbose': draw(st.integers(0, 1)), 'explicit': draw(st.sampled_from([True, True, False]))}
